@@ -10,7 +10,9 @@
 //!                         backup writes none and records identical addresses.
 //!  * `determinism_replay` (C17): the same history replayed into two fresh archives (second replay on a
 //!                         multi-thread runtime, with one 31 s stall in an observer-only callback) gives the
-//!                         same files with identical bytes apart from BANDHEAD / BANDTAIL.
+//!                         same files with identical bytes apart from BANDHEAD / BANDTAIL.  The source holds files,
+//!                         directories and symlinks dated in the future and in the far past (w_round5::dated_entries).
+//!                         `determinism_replay_fast`: the same without the stall (quick tier).
 
 use std::collections::BTreeMap;
 use std::os::unix::fs::{lchown, symlink, MetadataExt, PermissionsExt};
@@ -28,6 +30,7 @@ pub fn dispatch(mode: &str, kind: &str, _input: Option<&Value>) -> Option<Value>
         "restore_sandbox" => restore_sandbox,
         "resume_no_rewrite" => resume_no_rewrite,
         "determinism_replay" => determinism_replay,
+        "determinism_replay_fast" => determinism_replay_fast,
         "delete_unsorted" => delete_unsorted,
         "block_write_fails" => block_write_fails,
         "backup_heals_damage" => backup_heals_damage,
@@ -79,8 +82,16 @@ fn exclude_roundtrip() -> Result<Option<Value>, String> {
         ("build-x86/obj/a.o", 10), ("build-x86/out.bin", 10), ("sub/builds/log", 5), ("sub/build", 5), ("tmp-1/scratch", 5),
         ("keep/tmp-1/x", 5), ("foo/x/bar/file", 4), ("foo1bar/g", 4), ("café/mid/out/h", 4), ("caféXout", 4), ("a.o", 3), ("keep/b.o", 3), ("keep/c.txt", 3), ("é/ü.o", 3), ("cache/deep/er/f", 4), ("z", 1),
     ])?;
+    // symlinks whose TARGET text matches a pattern while their own path does not (dangling and not): a link is selected by
+    // its own path only, at backup time as at list / restore time
+    write_tree(&src, &[("sub/blob", 3)])?;
+    for (link, target) in [("latest", "cache"), ("sub/blob-link", "blob"), ("scratchlink", "tmp-1"), ("gone", "cache-gone"), ("dang.lnk", "missing.o"),
+        ("foolink", "foo1bar"), ("keep/obj", "../build-x86/obj"), ("sub/to-keep", "../keep"), ("é/lnk", "ü.o")] {
+        symlink(target, src.join(link)).map_err(|e| format!("setup failed at line {}: {e:?}", line!()))?;
+    }
     let pattern_sets: Vec<Vec<&str>> = vec![
         vec!["build*", "/tmp-*"], vec!["*.o"], vec!["/keep"], vec!["sub"], vec!["cache/**"], vec!["/build-x86/obj", "?"], vec!["[a-c]*"], vec!["é"], vec!["foo*bar"], vec!["café?out", "caf*ut"],
+        vec!["/cache"], vec!["cache*"], vec!["/cache", "blob"], vec!["missing.*", "keep"],
     ];
     let rt = tokio::runtime::Runtime::new().map_err(|e| format!("setup failed at line {}: {e:?}", line!()))?;
     rt.block_on(async {
@@ -94,7 +105,9 @@ fn exclude_roundtrip() -> Result<Option<Value>, String> {
             let stored: Vec<String> = listing(&part, 0, Exclude::nothing()).await?.into_iter().filter(|p| p != "/").collect();
             let listed: Vec<String> = listing(&full, 0, ex()?).await?.into_iter().filter(|p| p != "/").collect();
             if stored != listed {
-                return found("exclude_roundtrip", json!({"patterns": pats}), format!("backup with exclusions stored {stored:?}; listing the full backup with the same exclusions yields {listed:?}"),
+                let only_stored: Vec<&String> = stored.iter().filter(|p| !listed.contains(p)).collect();
+                let only_listed: Vec<&String> = listed.iter().filter(|p| !stored.contains(p)).collect();
+                return found("exclude_roundtrip", json!({"patterns": pats}), format!("only in the backup made with exclusions: {only_stored:?}; only in the listing of the full backup with the same exclusions: {only_listed:?}; (stored {stored:?}; listed {listed:?})"),
                     "the same entries", "exclusions select different entries at backup time and at list time");
             }
             // restore side
@@ -493,9 +506,21 @@ fn pin_times(root: &Path, secs: i64) {
 }
 
 fn determinism_replay() -> Result<Option<Value>, String> {
+    determinism("determinism_replay", true)
+}
+
+/// The same two replays without the 31 s stall (quick tier): the second replay still runs on a multi-thread runtime.
+fn determinism_replay_fast() -> Result<Option<Value>, String> {
+    determinism("determinism_replay_fast", false)
+}
+
+fn determinism(kind: &str, stall: bool) -> Result<Option<Value>, String> {
     let tmp = tempfile::tempdir().map_err(|e| format!("setup failed at line {}: {e:?}", line!()))?;
     let src = tmp.path().join("src");
     write_tree(&src, &[("a", 30), ("b", 30), ("c", 30), ("d/e", 30), ("d/f", 5000), ("g", 30)])?;
+    // files, directories and symlinks dated in the future (2100, 2200) and in the far past (1901, 1960): what is recorded
+    // for them must depend on the source only, never on the time of the run
+    super::w_round5::make_dated(&src)?;
     let history = |apath: PathBuf, slow: bool, rt: tokio::runtime::Runtime| -> Result<(), String> {
         rt.block_on(async {
             let archive = Archive::create_path(&apath).await.map_err(|e| format!("setup failed at line {}: {e:?}", line!()))?;
@@ -504,8 +529,9 @@ fn determinism_replay() -> Result<Option<Value>, String> {
                     std::fs::write(src.join("b"), b"changed in round two").map_err(|e| format!("setup failed at line {}: {e:?}", line!()))?;
                 }
                 pin_times(&src, 1_600_000_000 + 100 * round as i64);
+                super::w_round5::set_dated(&src)?;
                 let mut opts = BackupOptions { max_entries_per_hunk: 1000, ..BackupOptions::default() };
-                if slow && round == 0 {
+                if slow && stall && round == 0 {
                     let stalled = std::sync::atomic::AtomicBool::new(false);
                     opts.change_callback = Some(Box::new(move |ch| {
                         if ch.apath == "/c" && !stalled.swap(true, std::sync::atomic::Ordering::SeqCst) {
@@ -528,7 +554,7 @@ fn determinism_replay() -> Result<Option<Value>, String> {
         let only_a: Vec<&String> = a.keys().filter(|k| !b.contains_key(*k)).collect();
         let only_b: Vec<&String> = b.keys().filter(|k| !a.contains_key(*k)).collect();
         let differ: Vec<&String> = a.keys().filter(|k| b.get(*k).map(|v| v != &a[*k]).unwrap_or(false)).collect();
-        return found("determinism_replay", json!({"stall_s": 31}), format!("only in replay 1: {only_a:?}; only in replay 2: {only_b:?}; different bytes: {differ:?}"),
+        return found(kind, json!({"stall_s": if stall { 31 } else { 0 }}), format!("only in replay 1: {only_a:?}; only in replay 2: {only_b:?}; different bytes: {differ:?}"),
             "identical archive trees (apart from BANDHEAD/BANDTAIL timestamps)", "replaying the same history twice produced different archives");
     }
     Ok(None)
